@@ -15,7 +15,8 @@
 (* One behaviour = a next hop with or without SMTPUTF8 and a history of   *)
 (* up to MaxTxns transactions; each transaction has a recipient list      *)
 (* (duplicates, case variants, IDN domain, non-ASCII local part) and a    *)
-(* fault plan for the next hop (see RcptStatusObs).  Actions: TxnStart,   *)
+(* fault plan for the next hop (see RcptStatusObs; incl. the connection    *)
+(* breaking between two per-recipient LMTP answers).  Actions: TxnStart,   *)
 (* LmtpStart (MAIL at Start), AddRcpt per recipient, Body (BodyNonAtomic, *)
 (* the statuses handed to the collector), TxnEnd (Commit/Abort: which     *)
 (* connections go back to the cache).                                      *)
@@ -35,6 +36,7 @@ CONSTANTS Kinds,     \* subset of {"remote", "lmtp"}
           RcptSet,   \* addresses used in recipient lists (subset of Given)
           MaxList, MaxTxns,
           DataSet,   \* results of the DATA stage explored
+          DropSet,   \* LMTP: numbers of per-recipient answers after which the connection may break
           Devs, Gen
 
 VARIABLES cfg, k, pc, lst, plan, idx, acc, used, touched, pooled, rec, devs, obs, hist
@@ -50,14 +52,17 @@ Ext(f, D, dflt) == [x \in D |-> IF x \in DOMAIN f THEN f[x] ELSE dflt]
 
 Lists == UNION {[1..n -> RcptSet] : n \in 1..MaxList}
 
-(* fault plans for a recipient list, irrelevant entries fixed to "ok" *)
+(* fault plans for a recipient list, irrelevant entries fixed to "ok" / no drop *)
+NoDrop == 3
 Plans(kind, l) ==
   LET RS == ToSet(l)
       DS == IF kind = "lmtp" THEN {"D1"} ELSE {Dom(r) : r \in RS}
       StS == IF kind = "lmtp" THEN [RS -> {"ok", "temp", "perm"}] ELSE {<<>>}
+      DrS == IF kind = "lmtp" THEN (DropSet \cap (0..(Len(l) - 1))) \cup {NoDrop} ELSE {NoDrop}
   IN { [mail |-> Ext(m, Doms, "ok"), rcpt |-> Ext(rc, Given, "ok"),
-        data |-> Ext(da, Doms, "ok"), st |-> Ext(s, Given, "ok")] :
-         m \in [DS -> {"ok", "temp"}], rc \in [RS -> {"ok", "perm"}], da \in [DS -> DataSet], s \in StS }
+        data |-> Ext(da, Doms, "ok"), st |-> Ext(s, Given, "ok"), drop |-> dr] :
+         m \in [DS -> {"ok", "temp"}], rc \in [RS -> {"ok", "perm"}], da \in [DS -> DataSet], s \in StS,
+         dr \in DrS }
 
 H(e) == IF Gen THEN Append(hist, e) ELSE hist
 
@@ -134,11 +139,15 @@ ConnStatuses(D, d) ==
       r == Recorded(D, d) IN
   IF used[d] THEN [i \in 1..Len(r) |-> [k |-> r[i], v |-> v]] ELSE <<>>
 
+(* after `drop` answers the connection breaks: the remaining recipients get the I/O *)
+(* error (no temporary/permanent marker: reported class "perm"), under the address   *)
+(* as given                                                                           *)
 LmtpStatuses(D) ==
   LET a == acc["D1"] IN
   IF plan.data["D1"] # "ok"
   THEN [i \in 1..Len(a) |-> [k |-> a[i], v |-> plan.data["D1"]]]
-  ELSE [i \in 1..Len(a) |-> [k |-> LKey(D, a[i]), v |-> plan.st[a[i]]]]
+  ELSE [i \in 1..Len(a) |-> IF i <= plan.drop THEN [k |-> LKey(D, a[i]), v |-> plan.st[a[i]]]
+                                               ELSE [k |-> a[i], v |-> "perm"]]
 
 Exp(D) == IF cfg.kind = "lmtp" THEN LmtpStatuses(D) ELSE ConnStatuses(D, "D1") \o ConnStatuses(D, "D2")
 Expected == Exp(Devs)
